@@ -11,11 +11,11 @@ def parse_eval(path):
         return out
     for l in open(path):
         l = l.strip()
-        m = re.match(r'(?:\S+ )?([CRSTUVW]\d\d-\d) .*detected_by:(.*)$', l)
+        m = re.match(r'(?:\S+ )?([A-Z]\d\d-\d) .*detected_by:(.*)$', l)
         if m:
             out[m.group(1)] = m.group(2).strip()
             continue
-        m = re.match(r'(?:\S+ )?([CRSTUVW]\d\d-\d) (APPLY|BUILD)', l)
+        m = re.match(r'(?:\S+ )?([A-Z]\d\d-\d) (APPLY|BUILD)', l)
         if m:
             out[m.group(1)] = 'n/a'
     return out
